@@ -24,7 +24,9 @@ CONSTANTS Kind,        \* "rr" | "stream" | "channel": the interaction explored 
           Credits,     \* set of credit values the application may grant (initial n and request(n))
           MaxGrants,   \* number of request(n) calls per subscriber
           HasPub,      \* channel: the requester has a publisher of its own
-          LibSource    \* publishers are library stream sources: they emit exactly within credit, autonomously (C06)
+          LibSource,   \* publishers are library stream sources: they emit exactly within credit, autonomously (C06)
+          Slot,        \* 0 | 1: which of the connection's interactions this is (RSocketMC2 runs two side by side)
+          SidOff       \* 0, or 2 when the other interaction has the same initiator and takes that endpoint's first id
 
 VARIABLES mon, viol, d
 
@@ -39,8 +41,9 @@ mcvars == <<mon, viol, d>>
 
 R == Init_
 P == Peer(Init_)
-SID == IF Init_ = "c" THEN 1 ELSE 2
-IID == 1
+SID == (IF Init_ = "c" THEN 1 ELSE 2) + SidOff
+IID == 1 + Slot
+PidBase == 10 + 20 * Slot
 
 Ev0 == [ep |-> "-", ev |-> "", t |-> 0, sid |-> -1, ft |-> "", kind |-> "", iid |-> 0, pid |-> 0, n |-> 0, F |-> 0, C |-> 0, N |-> 0,
         M |-> 0, ml |-> 0, dl |-> 0, mpid |-> 0, moff |-> 0, dpid |-> 0, doff |-> 0, code |-> 0, x |-> 0, role |-> "", wl |-> 0, i |-> 0,
@@ -58,10 +61,14 @@ Run(m, fails, evs) ==
 
 Do(evs) == LET r == Run(mon, {}, evs) IN /\ mon' = r.m /\ viol' = viol \cup r.f
 
+D0 == [reg |-> [e \in E |-> {}], phase |-> "idle", nextPid |-> PidBase,
+       elems |-> [req |-> 0, resp |-> 0], grants |-> [req |-> 0, resp |-> 0], futCancelPending |-> FALSE]
+Mon0 == [M0 EXCEPT !.G["c"].setupEnq = 1, !.G["c"].setupTx = 1, !.G["c"].txCount = 1, !.G["s"].txCount = 1]
+
 MInit == /\ mon = [M0 EXCEPT !.G["c"].setupEnq = 1, !.G["c"].setupTx = 1, !.G["c"].txCount = 1, !.G["s"].txCount = 1]
          /\ viol = {}
-         /\ d = [reg |-> [e \in E |-> {}], phase |-> "idle", nextPid |-> 2,
-                 elems |-> [req |-> 0, resp |-> 0], grants |-> [req |-> 0, resp |-> 0], futCancelPending |-> FALSE]
+         /\ d = D0
+
 
 RoleOf(e) == IF e = R THEN "req" ELSE "resp"
 EpOf(role) == IF role = "req" THEN R ELSE P
@@ -148,6 +155,7 @@ React(e, f) ==
 
 Deliver(e) ==
     /\ mon.L[e] # <<>>
+    /\ Head(mon.L[e]).sid = SID           \* (with two interactions: the frame belongs to this one)
     /\ LET g == Head(mon.L[e])
            rx == [Frame(e, "rx", g.ft) EXCEPT !.sid = g.sid, !.n = g.n, !.C = g.C, !.N = g.N, !.F = g.F, !.M = g.M, !.ml = g.ml, !.dl = g.dl,
                                               !.mpid = g.mpid, !.moff = g.moff, !.dpid = g.dpid, !.doff = g.doff, !.code = g.code]
